@@ -439,6 +439,11 @@ pub unsafe extern "C" fn waitpid(pid: pid_t, status: *mut c_int, flags: c_int) -
     let on = ilog::active();
     let d = pre!(on, k::WAIT4, pid, 0);
     if d.fail != 0 {
+        // an interrupted wait: if the monitor has planned the child's exit, it happens now, so that an implementation
+        // that retries the wait is not left blocking on a child that never exits
+        if d.fail == libc::EINTR && vclock::EXIT_AT.load(std::sync::atomic::Ordering::SeqCst) != 0 {
+            vclock::fire_exit();
+        }
         set_errno(d.fail);
         log(k::WAIT4, [pid as i64, flags as i64, 0, 0], -1, d.fail, 1);
         return -1;
